@@ -189,7 +189,15 @@ type decoy struct {
 	Service string `json:"service"`
 }
 
+// homeRel is the home directory (relative to the case directory) of the scenario being built or
+// judged. It changes from one scenario to the next, so that a home directory remembered from an
+// earlier load in the same process shows up as a wrong expansion.
+var homeRel = "home/u"
+
+var homeShapes = []string{"home/u", "home/v w", "users/x.y"}
+
 type scenario struct {
+	Home       string      `json:"home,omitempty"`
 	WD         string      `json:"wd"` // project directory relative to the case directory
 	Case       ld.Case     `json:"case"`
 	Placements []placement `json:"placements"`
@@ -291,10 +299,11 @@ func decoyService() map[string]any {
 // build assembles the scenario for a list of combos.
 func build(seedWD, mainElsewhere int, combos []combo) *scenario {
 	wd := wdShapes[seedWD%len(wdShapes)]
-	sc := &scenario{WD: wd}
+	homeRel = homeShapes[(seedWD/len(wdShapes)+mainElsewhere)%len(homeShapes)]
+	sc := &scenario{WD: wd, Home: homeRel}
 	d := &docs{files: map[string]map[string]any{}}
 	extraFiles := map[string]string{}
-	dirs := []string{wd + "/pd2", "home/u", wd + "/inc1/sub", wd + "/ext", wd + "/ext2"}
+	dirs := []string{wd + "/pd2", homeRel, wd + "/inc1/sub", wd + "/ext", wd + "/ext2"}
 
 	mainSvcs := d.section("main", "services")
 	d.section("main", "volumes")["data"] = map[string]any{}
@@ -354,7 +363,7 @@ func build(seedWD, mainElsewhere int, combos []combo) *scenario {
 			sc.HasLabel = true
 			// the file must exist where the statement says the path points
 			rel := strings.TrimPrefix(pl.Expect, caseTok+"/")
-			rel = strings.Replace(rel, "@HOME@", "home/u", 1)
+			rel = strings.Replace(rel, "@HOME@", homeRel, 1)
 			extraFiles[rel] = "c12.label=" + name + "\n"
 		case "vol-short":
 			attrs["volumes"] = []any{v + ":/t/" + name}
@@ -374,6 +383,14 @@ func build(seedWD, mainElsewhere int, combos []combo) *scenario {
 		case "extends":
 			d.section("ext", "services")["b"+name] = attrs
 			mainSvcs[name] = map[string]any{"extends": map[string]any{"file": "ext/base.yaml", "service": "b" + name}}
+			if i%2 == 0 {
+				// the same base is also extended from an included project in another directory:
+				// the inherited path is anchored at the extended file's directory for both
+				d.section("inc1", "services")["x"+name] = map[string]any{"extends": map[string]any{"file": "../ext/base.yaml", "service": "b" + name}}
+				pl2 := pl
+				pl2.Name = "x" + name
+				sc.Placements = append(sc.Placements, pl2)
+			}
 		case "extends-chain":
 			d.section("ext2", "services")["c"+name] = attrs
 			d.section("ext", "services")["b"+name] = map[string]any{"extends": map[string]any{"file": "../ext2/base2.yaml", "service": "c" + name}}
@@ -452,7 +469,7 @@ type verdict struct {
 
 func subst(s, caseDir string) string {
 	s = strings.ReplaceAll(s, caseTok, caseDir)
-	return strings.ReplaceAll(s, "@HOME@", caseDir+"/home/u")
+	return strings.ReplaceAll(s, "@HOME@", caseDir+"/"+homeRel)
 }
 
 // materialised returns the case with the @CASE@ placeholder replaced by the real directory.
@@ -518,7 +535,7 @@ func actualOf(p *types.Project, pl placement) (string, string) {
 		return svc.LabelFiles[0], ""
 	case "vol-short", "vol-long":
 		for _, v := range svc.Volumes {
-			if v.Target == "/t/"+pl.Name {
+			if v.Target == "/t/"+pl.Name || v.Target == "/t/"+strings.TrimPrefix(pl.Name, "x") {
 				want := "bind"
 				if pl.Class == "named" {
 					want = "volume"
@@ -663,9 +680,13 @@ func shapeGroup(class string) string {
 func judge(s *core.Shard, sc *scenario) (vs []verdict, decided bool) {
 	work := s.Scratch()
 	caseDir := filepath.Join(work, "case")
+	homeRel = "home/u"
+	if sc.Home != "" {
+		homeRel = sc.Home
+	}
 	mc := materialised(&sc.Case, caseDir)
 	var on ld.Result
-	withHome(caseDir+"/home/u", func() { _, on = ld.Run(work, mc) })
+	withHome(caseDir+"/"+homeRel, func() { _, on = ld.Run(work, mc) })
 	s.Eval(1)
 	if on.Panic != nil {
 		return []verdict{{Kind: "panic", Attrs: map[string]string{"kind": "panic", "site": on.Panic.Site, "class": on.Panic.Class}, What: "load with path resolution panicked: " + on.Panic.Value, Extra: map[string]any{"stack.txt": on.Panic.Stack}}}, false
@@ -715,7 +736,7 @@ func judge(s *core.Shard, sc *scenario) (vs []verdict, decided bool) {
 		off := *mc
 		off.Opts.NoResolvePaths = true
 		var ro ld.Result
-		withHome(caseDir+"/home/u", func() { _, ro = ld.Run(work, &off) })
+		withHome(caseDir+"/"+homeRel, func() { _, ro = ld.Run(work, &off) })
 		s.Eval(1)
 		switch {
 		case ro.Panic != nil:
@@ -739,7 +760,7 @@ func judge(s *core.Shard, sc *scenario) (vs []verdict, decided bool) {
 	var m map[string]any
 	var merr error
 	var mpi *core.PanicInfo
-	withHome(caseDir+"/home/u", func() {
+	withHome(caseDir+"/"+homeRel, func() {
 		dir := filepath.Join(work, "case")
 		m, merr, mpi = ld.LoadModel(dir, mc)
 	})
@@ -748,7 +769,7 @@ func judge(s *core.Shard, sc *scenario) (vs []verdict, decided bool) {
 		before := deepCopy(m)
 		var rerr error
 		pi := core.Guard(func() {
-			withHome(caseDir+"/home/u", func() { rerr = paths.ResolveRelativePaths(m, "/c12-elsewhere", nil) })
+			withHome(caseDir+"/"+homeRel, func() { rerr = paths.ResolveRelativePaths(m, "/c12-elsewhere", nil) })
 		})
 		switch {
 		case pi != nil:
